@@ -549,8 +549,9 @@ func c19HTTPRound(tier string, c c19Case, r *rand.Rand, res *core.Result) {
 				res.Violate("http-envelope-altered-or-reordered", "envelope %d read over HTTP differs from what was written", i)
 				return
 			}
-		case <-ctx.Done():
-			res.Verdict, res.Note = core.Inconclusive, "HTTP round trip timed out"
+		case <-time.After(15 * time.Second):
+			// loopback HTTP, the reader is waiting: 15 s without the envelope means it was lost
+			res.Violate("http-envelope-lost", "envelope %d (body %d bytes) was written with a nil error but never delivered to the reader within 15 s", i, len(e.GetBody().GetData()))
 			return
 		}
 	}
